@@ -54,6 +54,11 @@ Fixpoint encj (t : ty) (v : gv) : jv :=
                | (k, ft) :: fr, x :: lr => (esc k, false, encj ft x) :: fields fr lr
                | _, _ => []
                end) fs l)
+  | TMapI _ _ _, VNil => JNULL
+  | TMapI _ _ e, VMap l =>
+      (* the keys are what the integer printer wrote: no escaping; the members in the order of these texts *)
+      JObj (map (fun kv : list N * jv => (fst kv, false, snd kv))
+                (sort_keys (map (fun kx : list N * gv => (fst kx, encj e (snd kx))) l)))
   | TBytes, VNil => JNULL
   | TBytes, VSlice l => JLeaf (TStr (b64enc (map (fun x => match x with VInt z => Z.to_N z | _ => 0 end) l)))
   | _, _ => JBAD
